@@ -106,7 +106,7 @@ class Field(Operator):
         """
         domain = DomainTuple.make(domain)
         if np.isscalar(arr):
-            arr = np.broadcast_to(arr, domain.shape)
+            return Field(domain, AnyArray.full(domain.shape, arr))
         return Field(domain, AnyArray(arr))
 
     def cast_domain(self, new_domain):
